@@ -61,6 +61,7 @@ type exchange struct {
 	Req   reqKind `json:"req"`
 	S     *script `json:"script"`
 	Pat   []int   `json:"read_sizes"`
+	Twice bool    `json:"same_request_object_twice,omitempty"` // the same *http.Request goes through RoundTrip twice; the second response is observed
 }
 
 type obs struct {
@@ -74,7 +75,9 @@ type obs struct {
 	Err        string   `json:"read_error"` // "" = clean EOF
 	Sticky     bool     `json:"sticky"`
 	StickyWhat string   `json:"sticky_what,omitempty"`
-	Fatal      string   `json:"fatal"` // round trip error / panic / nil body / hang
+	Fatal      string   `json:"fatal"`                              // round trip error / panic / nil body / hang
+	Attempts   int      `json:"attempts,omitempty"`                 // requests the origin received for this exchange
+	AEs        []string `json:"attempt_accept_encodings,omitempty"` // Accept-Encoding of each of them
 }
 
 type world struct {
@@ -149,6 +152,7 @@ func (w *world) do(x exchange) obs {
 		}
 		w.o.mu.Lock()
 		o.SeenAE = w.o.seen[xid].AE
+		o.Attempts, o.AEs = w.o.seen[xid].Attempts, w.o.seen[xid].AEs
 		delete(w.o.seen, xid)
 		w.o.mu.Unlock()
 		return o
@@ -172,6 +176,18 @@ func (w *world) exchange(x exchange, xid string) (o obs) {
 	}
 	if x.Req.Range != "" {
 		hr.Header.Set("Range", x.Req.Range)
+	}
+	if x.Twice {
+		// the request object is the caller's: RoundTrip must leave it as it was
+		first, err := cl.GetTransport().RoundTrip(hr)
+		if err != nil {
+			o.Fatal = "roundtrip (first use of the request): " + err.Error()
+			return
+		}
+		if first.Body != nil {
+			io.Copy(io.Discard, first.Body)
+			first.Body.Close()
+		}
 	}
 	resp, err := cl.GetTransport().RoundTrip(hr)
 	if err != nil {
@@ -260,6 +276,14 @@ func verdict(x exchange, o obs) (kind, what string) {
 	}
 	if o.SeenAE != wantAE {
 		return "accept-encoding", fmt.Sprintf("origin saw Accept-Encoding %q, want %q", o.SeenAE, wantAE)
+	}
+	for i, ae := range o.AEs {
+		if ae != wantAE {
+			return "accept-encoding", fmt.Sprintf("attempt %d of %d carried Accept-Encoding %q, want %q", i+1, len(o.AEs), ae, wantAE)
+		}
+	}
+	if s.DeclCL > len(s.Served) && !head {
+		return shortVerdict(x, o, transportAsked)
 	}
 	// several Content-Encoding lines are one list (RFC 9110 5.3): the field value is the lines joined
 	ce := strings.Join(s.CE, ", ")
@@ -387,6 +411,10 @@ func coqCase(x exchange, o obs) string {
 		clh = []string{fmt.Sprint(len(s.Served))}
 	}
 	ended := head || (len(s.Served) == 0 && s.SetCL)
+	short := s.DeclCL > len(s.Served) && !head
+	if short {
+		cl, clh, ended = int64(s.DeclCL), []string{fmt.Sprint(s.DeclCL)}, false
+	}
 	var tab []string
 	if !head {
 		t := s.table()
@@ -401,8 +429,42 @@ func coqCase(x exchange, o obs) string {
 	}
 	parts := []string{"C14Case", coqStack[x.Stack], hk.CoqBool(x.Cfg.Disable), hk.CoqBool(x.Cfg.Auto),
 		pks(x.Req.AE), pks(x.Req.Range), hk.CoqBool(head), hk.CoqBool(ended),
-		pkList(s.CE), pkList(clh), hk.CoqZ(cl), pk(blob(wire)), hk.CoqList(tab), coqNatList(x.Pat),
-		pks(o.SeenAE), pkList(o.CE), pkList(o.CLH), hk.CoqZ(o.CL), hk.CoqBool(o.Unc),
+		pkList(s.CE), pkList(clh), hk.CoqZ(cl), hk.CoqBool(short), pk(blob(wire)), hk.CoqList(tab), coqNatList(x.Pat),
+		pks(o.SeenAE), pkList(o.AEs), pkList(o.CE), pkList(o.CLH), hk.CoqZ(o.CL), hk.CoqBool(o.Unc),
 		pk(blob(o.Body)), hk.CoqBool(o.Err != "" || o.Fatal != ""), hk.CoqBool(o.Sticky)}
 	return strings.Join(parts, " ")
+}
+
+// shortVerdict: the origin declared s.DeclCL bytes, delivered s.Served and ended the stream cleanly.
+// "Corrupt [shortened] compressed data yields a read error rather than silently shortened output", on
+// every HTTP version: a decoded body must end with a read error wherever the cut falls (also behind the
+// last coded byte: every reader waits for the end of the message) and may only have delivered a prefix
+// of the original.
+func shortVerdict(x exchange, o obs, transportAsked bool) (kind, what string) {
+	s := x.S
+	ce := strings.Join(s.CE, ", ")
+	decode := (transportAsked && strings.EqualFold(ce, "gzip")) || (x.Cfg.Auto && supportedExact(ce) && x.Req.Range == "")
+	if !o.Sticky {
+		return "sticky", "a read after the terminal status returned data, a nil error, or a status of another kind: " + o.StickyWhat
+	}
+	decl := []string{fmt.Sprint(s.DeclCL)}
+	if !decode {
+		switch {
+		case !sameStrs(o.CE, s.CE) || !sameStrs(o.CLH, decl) || o.CL != int64(s.DeclCL) || o.Unc:
+			return "short-untouched", fmt.Sprintf("headers changed: Content-Encoding %q Content-Length %q ContentLength %d Uncompressed %v", o.CE, o.CLH, o.CL, o.Unc)
+		case !bytes.Equal(o.Body, s.Served):
+			return "short-untouched", fmt.Sprintf("delivered %d bytes, %d arrived", len(o.Body), len(s.Served))
+		}
+		return "", "" // whether an untouched short body must fail is the framing property's business (counted)
+	}
+	switch {
+	case len(o.CE) != 0 || len(o.CLH) != 0 || o.CL != -1 || !o.Unc:
+		return "short-decode", fmt.Sprintf("headers not rewritten: Content-Encoding %q Content-Length %q ContentLength %d Uncompressed %v", o.CE, o.CLH, o.CL, o.Unc)
+	case !bytes.HasPrefix(s.Payload, o.Body):
+		return "short-decode", fmt.Sprintf("delivered %d bytes that are not a prefix of the original payload", len(o.Body))
+	case o.Err == "":
+		return "short-decode", fmt.Sprintf("the body ended short of its declared length (%d of %d bytes, %s) and was delivered as %d bytes with a clean EOF (original %d bytes)",
+			len(s.Served), s.DeclCL, s.Corrupt, len(o.Body), len(s.Payload))
+	}
+	return "", ""
 }
